@@ -111,6 +111,7 @@ package fox
 //@ axiom lastOpen.range: forall u string, k int :: -1 <= lastOpen(u, k) && lastOpen(u, k) < max(k, 0) && lastOpen(u, k) < max(len(u), 0)
 //@ axiom lastOpen.is: forall u string, k int :: lastOpen(u, k) >= 0 ==> u[lastOpen(u, k)] == '{'
 //@ axiom lastOpen.last: forall u string, k int, m int :: {lastOpen(u, k), u[m]} lastOpen(u, k) < m && m < k && 0 <= m && m < len(u) ==> u[m] != '{'
+//@ lemma lastOpen.step props C10: forall u string, k int :: {lastOpen(u, k), u[k]} 0 <= k && k < len(u) ==> lastOpen(u, k+1) == (u[k] == '{' ? k : lastOpen(u, k))
 //@ exec lastOpen = func() int { for j := min(k, len(u)) - 1; j >= 0; j-- { if u[j] == '{' { return j } }; return -1 }()
 //@ -- kind of the last wildcard opened before k (0 none, 1 {param}, 2 *{catch-all}) and the number of bytes between its '}' and k
 //@ fun prevKind(u string, k int) int = (lastOpen(u, k) >= 1 && u[lastOpen(u, k)-1] == '*') ? 2 : (lastOpen(u, k) >= 0 ? 1 : 0)
@@ -165,6 +166,7 @@ package fox
 //@   loop 1: invariant closed: forall k int :: {url[k]} 0 <= k && k < i && k < len(url) && url[k] == '{' && !(state != stateDefault && k == startParam) ==> closedWild(url, k, endHost, fox.maxParamKeyBytes, i)
 //@   loop 1: invariant open: state != stateDefault ==> 0 <= startParam && startParam < i && (startParam < len(url) ==> url[startParam] == '{') && (inParam <==> i - startParam >= 2) && (i <= len(url) ==> i - startParam - 1 <= fox.maxParamKeyBytes)
 //@   loop 1: invariant name: state != stateDefault ==> forall m int :: {url[m]} startParam < m && m < i && m < len(url) ==> nameChar(url, startParam, m, endHost)
+//@   loop 1: invariant lopen: state != stateDefault && i <= len(url) ==> lastOpen(url, i) == startParam && nextClose(url, startParam) >= i
 //@   loop 1: invariant hostcatch: state == stateCatchAll ==> startParam > endHost
 //@   loop 1: invariant count: (i <= len(url) ==> paramCnt == cnt(url, i)) && paramCnt <= fox.maxParams
 //@   loop 1: invariant noname: state == stateDefault ==> !inParam
